@@ -4,6 +4,7 @@ for C17), by structural induction, with C07's simplifier soundness and the varia
 Proofs/MarkerProjVars.lean used as proved.
 -/
 import PoetryVerif.Proofs.MarkerProjVars
+import PoetryVerif.Proofs.VRangeOps
 
 set_option linter.unusedSimpArgs false
 set_option linter.unusedVariables false
@@ -15,8 +16,9 @@ variable {ev : Leaf → Bool} {G : Leaf → Prop}
 /-! ### `reduce_by_python_constraint` -/
 
 /-- what the reduction theorem needs from the other developments, at one environment (leaf truth `ev`,
-interpreter `py`) and one Python range `pc` that admits `py` -/
-structure ReduceCtx (ev : Leaf → Bool) (G : Leaf → Prop) (pc : VC) (py : Version) : Prop where
+interpreter `py`) and one Python range `pc` that admits `py`.  `G` is the leaf invariant of the simplifier's
+soundness; `P` is an additional shape the python leaves of the *input* marker have (the results need not) -/
+structure ReduceCtx (ev : Leaf → Bool) (G P : Leaf → Prop) (pc : VC) (py : Version) : Prop where
   /-- C07's leaf specification (marker equality and leaf merging respect truth) -/
   spec : LeafSpec ev G
   /-- the variables of the leaves are spelt canonically (true of what `SingleMarker.__init__` stores;
@@ -25,19 +27,20 @@ structure ReduceCtx (ev : Leaf → Bool) (G : Leaf → Prop) (pc : VC) (py : Ver
   /-- the one leaf-level fact about `_merge_python_version_single_markers` (see `ReparseNames`) -/
   reparse : ReparseNames
   /-- C11 `pyConstraint_exact` for a single-marker-like -/
-  gpcLeaf_exact : ∀ (l : Leaf) (c : VC), G l → isPyName l.name = true → gpcLeaf l = .ok c → c.allows py = .ok (ev l)
+  gpcLeaf_exact : ∀ (l : Leaf) (c : VC), G l → P l → isPyName l.name = true → gpcLeaf l = .ok c →
+    c.allowsPlain py = ev l
   /-- C11 `pyConstraint_exact` (the direction used) for python-only markers -/
-  gpc_lower : ∀ (u : M) (g : VC), M.Good G u → (∀ n ∈ M.vars u, n ∈ pyNames) → gpc u = .ok g → g.allows py = .ok true →
-    M.sem ev u = true
+  gpc_lower : ∀ (u : M) (g : VC), M.Good G u → (∀ n ∈ M.vars u, n ∈ pyNames) → gpc u = .ok g →
+    g.allowsPlain py = true → M.sem ev u = true
   /-- C12 containment / overlap soundness at the probe `py` -/
-  allowsAll_sound : ∀ c : VC, c.allowsAll pc = .ok true → c.allows py = .ok true
-  allowsAny_sound : ∀ c : VC, c.allowsAny pc = .ok false → c.allows py = .ok true → False
+  allowsAll_sound : ∀ c : VC, c.allowsAll pc = .ok true → c.allowsPlain py = true
+  allowsAny_sound : ∀ c : VC, c.allowsAny pc = .ok false → c.allowsPlain py = true → False
   /-- C11 `createNested_exact` through poetry's own parser, at a range admitting `py` -/
   nested_true : ∀ (txt : String) (pm : M), createNestedMarker "python_version" pc = .ok txt → parseMarker txt = .ok pm →
     M.Good G pm ∧ M.sem ev pm = true
 
-theorem Leaf.reduce_exact {pc : VC} {py : Version} (C : ReduceCtx ev G pc py)
-    (l : Leaf) (r : M) (hg : G l) (h : Leaf.reduce l pc = .ok r) : M.Good G r ∧ M.sem ev r = ev l := by
+theorem Leaf.reduce_exact {P : Leaf → Prop} {pc : VC} {py : Version} (C : ReduceCtx ev G P pc py)
+    (l : Leaf) (r : M) (hg : G l) (hP : P l) (h : Leaf.reduce l pc = .ok r) : M.Good G r ∧ M.sem ev r = ev l := by
   cases l with
   | amulti n c => simp [Leaf.reduce, pure, Except.pure] at h; subst h; exact ⟨by simpa using hg, by simp⟩
   | aunion n c => simp [Leaf.reduce, pure, Except.pure] at h; subst h; exact ⟨by simpa using hg, by simp⟩
@@ -48,7 +51,7 @@ theorem Leaf.reduce_exact {pc : VC} {py : Version} (C : ReduceCtx ev G pc py)
       split at h
       · cases h
       · rename_i c hc
-        have hex := C.gpcLeaf_exact (.single s) c hg hp hc
+        have hex := C.gpcLeaf_exact (.single s) c hg hP hp hc
         split at h
         · cases h
         · rename_i ball hall
@@ -58,7 +61,7 @@ theorem Leaf.reduce_exact {pc : VC} {py : Version} (C : ReduceCtx ev G pc py)
             have := C.allowsAll_sound c hall
             rw [hex] at this
             refine ⟨by simp, ?_⟩
-            simp only [M.sem]; injection this with this; exact this.symm
+            simp only [M.sem]; exact this.symm
           · have hb' : ball = false := by cases ball <;> simp_all
             subst hb'
             simp only [Bool.false_eq_true, if_false] at h
@@ -93,21 +96,24 @@ theorem Leaf.reduce_exact {pc : VC} {py : Version} (C : ReduceCtx ev G pc py)
     · simp [hp, pure, Except.pure] at h; subst h; exact ⟨by simpa using hg, by simp⟩
 
 mutual
-theorem reduce_exact_aux {pc : VC} {py : Version} (C : ReduceCtx ev G pc py)
-    (m r : M) (hg : M.Good G m) (h : M.reduce pc m = .ok r) : M.Good G r ∧ M.sem ev r = M.sem ev m := by
+theorem reduce_exact_aux {P : Leaf → Prop} {pc : VC} {py : Version} (C : ReduceCtx ev G P pc py)
+    (m r : M) (hgp : M.Good (fun l => G l ∧ P l) m) (h : M.reduce pc m = .ok r) :
+    M.Good G r ∧ M.sem ev r = M.sem ev m := by
+  have hg : M.Good G m := M.good_mono (fun l hl => hl.1) m hgp
   cases m with
   | any => simp [M.reduce] at h; subst h; simp
   | empty => simp [M.reduce] at h; subst h; simp
   | leaf l =>
     simp only [M.reduce] at h
-    have := Leaf.reduce_exact C l r (by simpa using hg) h
+    have hl : G l ∧ P l := by simpa using hgp
+    have := Leaf.reduce_exact C l r hl.1 hl.2 h
     exact ⟨this.1, by simpa [M.sem] using this.2⟩
   | multi ms =>
     simp only [M.reduce, bind, Except.bind] at h
     split at h
     · cases h
     · rename_i xs hx
-      have hl := reduce_exact_list C ms xs (by simpa [M.Good] using hg) hx
+      have hl := reduce_exact_list C ms xs (by simpa [M.Good] using hgp) hx
       have hs := multiOf_sound C.spec hl.1 h
       exact ⟨hs.1, by rw [hs.2, hl.2.1]; simp only [M.sem]⟩
   | union ms =>
@@ -158,11 +164,11 @@ theorem reduce_exact_aux {pc : VC} {py : Version} (C : ReduceCtx ev G pc py)
         split at h
         · cases h
         · rename_i xs hx
-          have hl := reduce_exact_list C ms xs hgl hx
+          have hl := reduce_exact_list C ms xs (by simpa [M.Good] using hgp) hx
           have hs := unionOf_sound C.spec hl.1 h
           exact ⟨hs.1, by rw [hs.2, hl.2.2]; simp only [M.sem]⟩
-theorem reduce_exact_list {pc : VC} {py : Version} (C : ReduceCtx ev G pc py)
-    (ms xs : List M) (hg : M.GoodAll G ms) (h : M.reduceList pc ms = .ok xs) :
+theorem reduce_exact_list {P : Leaf → Prop} {pc : VC} {py : Version} (C : ReduceCtx ev G P pc py)
+    (ms xs : List M) (hg : M.GoodAll (fun l => G l ∧ P l) ms) (h : M.reduceList pc ms = .ok xs) :
     M.GoodAll G xs ∧ M.semAll ev xs = M.semAll ev ms ∧ M.semAny ev xs = M.semAny ev ms := by
   cases ms with
   | nil => simp [M.reduceList] at h; subst h; simp [M.GoodAll]
